@@ -36,66 +36,85 @@ partial def mapSize (m : List Entry) : Nat :=
     | .unmodified .. => acc + 1
     | .rewritten _ _ _ _ ns => acc + 1 + mapSize ns) 0
 
-/-- what the real `expand_defgate_sequences_with_source_map` returned, decoded -/
-inductive ImplOut where
-  | ok (body : List (Instr String)) (kept : List String) (intact same : Bool) (map : List Entry)
-  | err (e : Err) (same : Bool)
-
-def decodeOut : Sexp → Option ImplOut
-  | .list [.atom "ok", .list (.atom "body" :: is), .list (.atom "kept" :: ks), .list [.atom "intact", .atom b],
-      .list [.atom "same", .atom s], .list (.atom "map" :: es)] =>
-    match decodeAll decodeInstr is, decodeAll decodeStr ks, decodeAll decodeEntry es with
-    | some is, some ks, some es => some (.ok is ks (b == "true") (s == "true") es)
-    | _, _, _ => none
-  | .list [.atom "err", e, .list [.atom "same", .atom s]] => (decodeErr e).map fun e => .err e (s == "true")
+def decodeNatList : Sexp → Option (List Nat)
+  | .list xs => decodeAll (fun x => match x with | .atom a => a.toNat? | _ => none) xs
   | _ => none
 
-/-- model output = implementation output -/
-def agrees (p : Program String) (sel : String → Bool) (o : ImplOut) : Bool :=
-  match expandProgramWithMap p sel, o with
-  | .ok (q, m), .ok body kept intact same m' =>
-    decide (q.body = body) && kept == q.defs.map (·.name) && intact && same && mapBeq m m'
-  | .err e, .err e' same => decide (e = e') && same
-  | _, _ => false
+/-- `(map entry…) (ls (src…)…) (lt n…)` of a successful source-map call -/
+structure MapObs where
+  map : List Entry
+  ls : List (List Nat)
+  lt : List Nat
+
+def decodeMapObs : List Sexp → Option MapObs
+  | [.list (.atom "map" :: es), .list (.atom "ls" :: ls), .list (.atom "lt" :: lt)] =>
+    match decodeAll decodeEntry es, decodeAll decodeNatList ls, decodeNatList (.list lt) with
+    | some es, some ls, some lt => some { map := es, ls := ls, lt := lt }
+    | _, _, _ => none
+  | _ => none
+
+/-- model output = implementation output, for BOTH entry points, the map and the lookups -/
+def agrees (p : Program String) (sel : String → Bool) (obs : Obs) (mo : Option MapObs) : Bool :=
+  match expandProgramWithMap p sel, obs.mapped, obs.plain, mo with
+  | .ok (q, m), .ok body kept intact, .ok body' kept' intact', some mo =>
+    decide (q.body = body) && kept == q.defs.map (·.name) && intact &&
+      decide (q.body = body') && kept' == q.defs.map (·.name) && intact' &&
+      mapBeq m mo.map &&
+      mo.ls == (List.range q.body.length).map (listSources m) &&
+      mo.lt == (List.range p.body.length).map (listTargetsCount m)
+  | .err e, .err e', .err e'', _ => decide (e = e') && decide (e = e'')
+  | _, _, _, _ => false
 
 /-- The specification evaluated on the implementation's output:
-* `Ok`: the two entry points returned equal programs (`same`), the map is a faithful source map of
-  "source body ↦ returned body" (`checkMap`, proved `↔ MapOK`, which implies every clause of the statement:
-  `C21_sources`, `C21_tiles`, `C21_unmodified`, `C21_rewritten`, `C21_map_certifies_expansion`),
-  the definitions are the ones C20 retains;
+* `Ok`: the two entry points returned the same program in every component (`fullsame`, compared through
+  Debug text and used-qubit sets), the map is a faithful source map of "source body ↦ returned body"
+  (`checkMap`, proved `↔ MapOK`, which implies every clause of the statement: `C21_sources`, `C21_tiles`,
+  `C21_unmodified`, `C21_rewritten`, `C21_map_certifies_expansion`), the public lookups agree with the map
+  the implementation returned and are unique (`C21_list_sources`, `C21_list_targets`), repeated calls return
+  the same (`again`), the definitions are the ones C20 retains;
 * `Err`: the other entry point returned the same error, which is the one `C20.expand` reports
-  (`C21_same_outcome`). -/
-def specCheck (p : Program String) (sel : String → Bool) (o : ImplOut) : Bool :=
-  match o with
-  | .ok body kept intact same m =>
-    same && intact && kept == (keptDefs p.defs sel).map (·.name) && checkMap p.defs sel m 0 0 p.body body
-  | .err e same => same && decide (C20.expand p.defs sel p.body = .err e)
+  (`C21_same_outcome`), and formatting it did not panic. -/
+def specCheck (p : Program String) (sel : String → Bool) (obs : Obs) (mo : Option MapObs) : Bool :=
+  obs.fullsame && obs.again && obs.errfmt &&
+  match obs.mapped, obs.plain, mo with
+  | .ok body kept intact, .ok body' _ _, some mo =>
+    intact && decide (body = body') && kept == (keptDefs p.defs sel).map (·.name) &&
+      checkMap p.defs sel mo.map 0 0 p.body body &&
+      mo.ls == (List.range body.length).map (listSources mo.map) && mo.ls.all (·.length == 1) &&
+      mo.lt == (List.range p.body.length).map (listTargetsCount mo.map) && mo.lt.all (· == 1)
+  | .err e, .err e', _ => decide (e = e') && decide (C20.expand p.defs sel p.body = .err e)
+  | _, _, _ => false
 
 def handle (inp out : Sexp) : CaseResult :=
   match decodeInput inp with
   | none => .bad s!"undecodable input {inp}"
   | some (p, selNames) =>
     let sel : String → Bool := fun n => selNames.contains n
-    match decodeOut out with
+    match decodeObs out with
     | none =>
       { agree := false, specOk := false, nontrivial := false, tags := ["impl-undecodable-or-crash"],
         detail := s!"impl={out}" }
-    | some o =>
+    | some obs =>
+      let mo := decodeMapObs obs.mappedRest
       let tags :=
-        (match o with
-          | .ok _ _ _ _ m =>
-            ["ok", s!"mapdepth{min (mapDepth m) 4}", s!"mapsize{min (mapSize m / 4 * 4) 24}",
-             s!"toplevel{min m.length 8}"] ++
+        (match obs.mapped, mo with
+          | .ok .., some mo =>
+            let m := mo.map
+            ["ok", s!"mapdepth{min (mapDepth m) 6}", s!"mapsize{min (mapSize m / 8 * 8) 64}",
+             s!"toplevel{if m.length ≤ 8 then m.length else if m.length ≤ 32 then 32 else 128}"] ++
             (if m.any (fun e => match e with | .rewritten _ _ a b _ => a == b | _ => false) then ["empty-range"] else []) ++
             (if m.any (fun e => match e with | .rewritten .. => true | _ => false) &&
                 m.any (fun e => match e with | .unmodified .. => true | _ => false) then ["mixed"] else [])
-          | .err e _ => ["err", "err-" ++ errKind e]) ++
-        [s!"defs{min p.defs.length 5}", s!"body{min p.body.length 8}"]
-      let nontrivial := match o with
-        | .ok _ _ _ _ m => m.any fun e => match e with | .rewritten .. => true | _ => false
-        | .err .. => false
-      { agree := agrees p sel o,
-        specOk := specCheck p sel o,
+          | .ok .., none => ["ok-map-undecodable"]
+          | .err e, _ => ["err", "err-" ++ errKind e]) ++
+        [s!"defs{if p.defs.length ≤ 5 then p.defs.length else if p.defs.length ≤ 16 then 16 else 64}",
+         s!"body{if p.body.length ≤ 8 then p.body.length else if p.body.length ≤ 32 then 32 else 128}"] ++
+        (if inputHasExtras inp then ["extras"] else [])
+      let nontrivial := match mo with
+        | some mo => mo.map.any fun e => match e with | .rewritten .. => true | _ => false
+        | none => false
+      { agree := agrees p sel obs mo,
+        specOk := specCheck p sel obs mo,
         nontrivial := nontrivial,
         tags := tags,
         detail := s!"model={repr (expandProgramWithMap p sel)} impl={out}" }
